@@ -72,6 +72,8 @@ struct Driver {
     long limit = 50 * (long)node.size() + 1000;
     galois::do_all(galois::iterate(g), [&](GN n) {
       if (__atomic_add_fetch(&total, 1, __ATOMIC_SEQ_CST) > limit) {
+        static int once = 0;
+        if (__atomic_exchange_n(&once, 1, __ATOMIC_SEQ_CST) != 0) for (;;) usleep(1000);   // one thread reports
         L->ev(64, ks("ev", "piter") + ",\"nodes\":[]," + kv("bad", -1));
         L->flush();
         _exit(3);
